@@ -949,7 +949,8 @@ class Engine:
             except IOError as error:
                 self.log.warning("IOError on attempting restart (%s). Assuming vanilla component" % error)
                 restartContext = experiment.model.codes.restartContexts['RestartContextHookNotAvailable']
-            except Exception as error:
+            except (Exception, SystemExit) as error:
+                # VV: a hook which calls sys.exit() raises SystemExit (not an Exception), it has failed too
                 self.log.critical(
                 "The restart hook raised exception: %s. Will consider it RestartContextHookFailed" % str(error))
                 restartContext = experiment.model.codes.restartContexts['RestartContextHookFailed']
